@@ -89,6 +89,11 @@ def mutate(ctx, config, rng, prefix, rho, G, gser, a, cv, C33, proof):
         for nv_, cl in ((n, "n"), (2**256 - 1, "max"), (val + n if val + n < 2**256 else n + 1, "plus_order")):
             V(proof[:off] + b32(nv_) + proof[off + 32:], "mut:scalar_ge_n:" + cl)
     V(proof + b'\x00', "mut:len+1"); V(proof[:-1], "mut:len-1"); V(proof + bytes(65), "mut:extra_round"); V(proof[65:] if rounds else proof[:-32], "mut:missing_round")
+    if len(proof) <= 64 + 65 * 2 and rng.random() < 0.5:
+        # every length 0 .. len+70: the valid bytes truncated or followed by padding; only the exact length may be accepted
+        tail = bytes(70) if rng.random() < 0.5 else bytes(rng.getrandbits(8) for _ in range(70))
+        for L in range(0, len(proof) + 71):
+            if L != len(proof): V((proof + tail)[:L], "len_sweep")
     V(proof, "mut:rho_zero", rho=0); V(proof, "mut:rho_n", rho=n); V(proof, "mut:other_rho", rho=(rho + 1) % n or 1)
     V(proof, "mut:other_prefix", prefix=prefix + b'x')
     c2 = list(cv); c2[rng.randrange(b)] = (c2[0] + 1) % n; V(proof, "mut:c_vec_altered", cv=c2)
